@@ -818,7 +818,7 @@ fn run_op(cache: &mut Cache, op: &OpKind) -> Ret {
             cache.clear();
             Ret::Unit
         }
-        OpKind::It { kind, calls, forget } => {
+        OpKind::It { kind, calls, forget, unwind } => {
             let mut items = Vec::new();
             match kind {
                 IterKind::Iter => {
@@ -860,6 +860,8 @@ fn run_op(cache: &mut Cache, op: &OpKind) -> Ret {
                     }
                     if *forget {
                         std::mem::forget(it);
+                    } else if *unwind {
+                        unwind_holding(it);
                     }
                 }
                 _ => unreachable!(),
@@ -1105,9 +1107,22 @@ fn parse_debug(s: &str) -> Vec<Option<(KD, VD)>> {
     out
 }
 
+pub struct ConsumerPanic;
+
+/// The consumer of an iterator panics while holding it: the iterator is dropped *during unwinding*
+/// (`std::thread::panicking()` is true inside its `Drop`). Whatever it still owns must be dropped all the same.
+fn unwind_holding<T>(it: T) {
+    let was = with_ctx(|c| c.quiet);
+    let _ = catch_unwind(AssertUnwindSafe(move || {
+        let _held = it;
+        std::panic::panic_any(ConsumerPanic);
+    }));
+    with_ctx(|c| c.quiet = was);
+}
+
 fn run_consuming(cache: Cache, op: &OpKind, panic_at: Option<(Kind, u64)>) -> (Ret, OpLog, bool) {
-    let (kind, calls, forget) = match op {
-        OpKind::It { kind, calls, forget } => (*kind, calls.clone(), *forget),
+    let (kind, calls, forget, unwind) = match op {
+        OpKind::It { kind, calls, forget, unwind } => (*kind, calls.clone(), *forget, *unwind),
         _ => unreachable!(),
     };
     begin_op(panic_at);
@@ -1123,6 +1138,8 @@ fn run_consuming(cache: Cache, op: &OpKind, panic_at: Option<(Kind, u64)>) -> (R
                 }
                 if forget {
                     std::mem::forget(it);
+                } else if unwind {
+                    unwind_holding(it);
                 }
             }
             IterKind::IntoK => {
@@ -1134,6 +1151,8 @@ fn run_consuming(cache: Cache, op: &OpKind, panic_at: Option<(Kind, u64)>) -> (R
                 }
                 if forget {
                     std::mem::forget(it);
+                } else if unwind {
+                    unwind_holding(it);
                 }
             }
             IterKind::IntoV => {
@@ -1145,6 +1164,8 @@ fn run_consuming(cache: Cache, op: &OpKind, panic_at: Option<(Kind, u64)>) -> (R
                 }
                 if forget {
                     std::mem::forget(it);
+                } else if unwind {
+                    unwind_holding(it);
                 }
             }
             _ => unreachable!(),
